@@ -346,6 +346,23 @@ class World:
         masterapi.update_allocations(self.admin, self.scn['allocsets'][k - 1])
         self.allocset = k
 
+    def decl_allocs(self):
+        """Parameters of the allocations as the current /allocations document
+        DECLARES them (rank, adjustment, reserved capacity, utilisation cap,
+        partition): an independent re-statement, keyed like the projection."""
+        def mb(x):
+            x = str(x)
+            return int(x[:-1]) * {'M': 1, 'G': 1024, 'T': 1048576}[x[-1].upper()]
+        doc = self.scn['allocsets'][getattr(self, 'allocset', 1) - 1]
+        out = {}
+        for obj in doc:
+            mu = obj.get('max_utilization')
+            out['%s:%s' % (obj['partition'], obj['name'].replace(':', '/'))] = dict(
+                rank=int(obj['rank']), adj=int(obj.get('rank_adjustment') or 0),
+                reserved=[mb(obj['memory']), int(str(obj['cpu']).rstrip('%')), mb(obj['disk'])],
+                maxutil=-1 if mu is None else int(mu), label=obj['partition'])
+        return out
+
     def oprio(self):
         """Priority each scheduled instance is DECLARED to have: the manifest's own
         priority when it carries one (-1 = unset), else that of the first matching
@@ -783,6 +800,7 @@ def replay(scn, history):
                     line['declared'] = w.declared()
                     line['oprio'] = w.oprio()
                     line['decl_apps'] = w.decl_apps()
+                    line['decl_allocs'] = w.decl_allocs()
                     line['queues'] = w.queues
                     line['placement'] = [[w.aname(n), b or '', rels(eb), a or '', rels(ea)]
                                          for n, b, eb, a, ea in w.placement]
@@ -798,6 +816,7 @@ def replay(scn, history):
                     line['declared'] = w.declared()
                     line['oprio'] = w.oprio()
                     line['decl_apps'] = w.decl_apps()
+                    line['decl_allocs'] = w.decl_allocs()
                     line['queues'] = w.init_queues
                     line['placement'] = [[w.aname(n), b or '', rels(eb), a or '', rels(ea)]
                                          for n, b, eb, a, ea in w.init_placement]
@@ -837,6 +856,7 @@ def sched_segments(tid, lines):
                         queues=l['queues'], placement=l['placement'],
                         declared=l.get('declared', {}), oprio=l.get('oprio', {}),
                         decl_apps=l.get('decl_apps', {}), obs_down=l.get('obs_down', {}),
+                        decl_allocs=l.get('decl_allocs', {}),
                         obs_frozen=l.get('obs_frozen', []))]
             continue
         if not cur:
@@ -853,6 +873,7 @@ def sched_segments(tid, lines):
             line['declared'] = l.get('declared', {})
             line['oprio'] = l.get('oprio', {})
             line['decl_apps'] = l.get('decl_apps', {})
+            line['decl_allocs'] = l.get('decl_allocs', {})
             if 'probe' in l:
                 line['probe'] = l['probe']
                 line['quiet'] = l['quiet']
